@@ -1,3 +1,469 @@
-use super::*; use crate::H; use elliptic_curve::hash2curve::ExpandMsg; use zkryptium::bbsplus::ciphersuites::BbsCiphersuite;
-pub fn c08<CS: BbsCiphersuite>(_h: &mut H) where CS::Expander: for<'a> ExpandMsg<'a> {}
-pub fn c09<CS: BbsCiphersuite>(_h: &mut H) where CS::Expander: for<'a> ExpandMsg<'a> {}
+// C08 (untrusted input never crashes), C09 (canonical, strict encodings)
+use super::gen_blind::honest_issue;
+use super::gen_proof::{honest_proof, rand_tape};
+use super::*;
+use crate::ops::*;
+use crate::H;
+use bls12_381_plus::{G1Affine, G1Projective, G2Affine, G2Projective, Scalar};
+use elliptic_curve::group::Curve;
+use elliptic_curve::hash2curve::ExpandMsg;
+use std::time::Instant;
+use zkryptium::bbsplus::ciphersuites::BbsCiphersuite;
+use zkryptium::bbsplus::commitment::{BBSplusCommitment, BlindFactor};
+use zkryptium::bbsplus::keys::{BBSplusPublicKey, BBSplusSecretKey};
+use zkryptium::bbsplus::proof::{BBSplusPoKSignature, BBSplusZKPoK};
+use zkryptium::bbsplus::signature::BBSplusSignature;
+
+pub const TYPES: [&str; 7] = ["pk", "sk", "sig", "proof", "zkpok", "commit", "blind"];
+
+pub struct Honest {
+    pub pk: Vec<u8>,
+    pub sk: Vec<u8>,
+    pub sig: Vec<u8>,
+    pub proof: Vec<u8>,
+    pub commit: Vec<u8>,
+    pub blind: Vec<u8>,
+}
+
+pub fn honest_artefacts<CS: BbsCiphersuite>(h: &mut H, l: usize, m: usize) -> Honest
+where
+    CS::Expander: for<'a> ExpandMsg<'a>,
+{
+    let (sk, pk) = rand_keypair::<CS>(h);
+    let msgs = rand_msgs(h, l);
+    let cmsgs = rand_msgs(h, m);
+    let s = sign::<CS>(h, &sk, &pk, None, Some(&msgs)).ok().expect("sign");
+    let d = rand_subset(h, l);
+    let d = if d.len() == l && l > 0 { d[1..].to_vec() } else { d };
+    let p = honest_proof::<CS>(h, &pk, &s.to_bytes(), None, None, &msgs, &d, true).expect("proof");
+    let run = honest_issue::<CS>(h, &sk, &pk, None, &msgs, &cmsgs, true).expect("issue");
+    Honest {
+        pk: pk.to_bytes().to_vec(),
+        sk: sk.to_bytes().to_vec(),
+        sig: s.to_bytes().to_vec(),
+        proof: p.to_bytes(),
+        commit: run.cwp,
+        blind: run.blind.to_vec(),
+    }
+}
+
+fn honest_of<'a>(hon: &'a Honest, ty: &str) -> &'a [u8] {
+    match ty {
+        "pk" => &hon.pk,
+        "sk" => &hon.sk,
+        "sig" => &hon.sig,
+        "proof" => &hon.proof,
+        "zkpok" => &hon.commit[48..],
+        "commit" => &hon.commit,
+        _ => &hon.blind,
+    }
+}
+
+/// serde_json decoding of the same types must return Ok/Err, never panic (implementation only)
+fn json_probe(h: &mut H, ty: &str, text: &str) {
+    let r = std::panic::catch_unwind(|| match ty {
+        "pk" => serde_json::from_str::<BBSplusPublicKey>(text).is_ok(),
+        "sk" => serde_json::from_str::<BBSplusSecretKey>(text).is_ok(),
+        "sig" => serde_json::from_str::<BBSplusSignature>(text).is_ok(),
+        "proof" => serde_json::from_str::<BBSplusPoKSignature>(text).is_ok(),
+        "zkpok" => serde_json::from_str::<BBSplusZKPoK>(text).is_ok(),
+        _ => serde_json::from_str::<BBSplusCommitment>(text).is_ok(),
+    });
+    h.stat("C08.json_probe");
+    h.expect(r.is_ok(), "C08.json_panic", &format!("serde_json decoding of {} panicked on {:?}", ty, &text[..text.len().min(60)]), &[]);
+}
+
+pub fn c08<CS: BbsCiphersuite>(h: &mut H)
+where
+    CS::Expander: for<'a> ExpandMsg<'a>,
+{
+    let thorough = h.tier_thorough;
+    let hon = honest_artefacts::<CS>(h, 3, 2);
+    // a long honest proof / commitment so that "honest prefix" classes exist up to 1024 bytes
+    let hon_long = honest_artefacts::<CS>(h, 26, 27);
+    // --- decoders: every length 0..=1024, several content classes
+    let step = if thorough { 1 } else { 1 };
+    for ty in TYPES {
+        let base = honest_of(&hon_long, ty).to_vec();
+        let mut len = 0usize;
+        while len <= 1024 {
+            let nclass = if thorough { 6 } else if len <= 300 || len % 32 <= 1 || len % 48 <= 1 { 3 } else { 1 };
+            for c in 0..nclass {
+                let cls = (len + c) % 6;
+                let b: Vec<u8> = match cls {
+                    0 => vec![0u8; len],
+                    1 => vec![0xffu8; len],
+                    2 => {
+                        // honest prefix (possibly the whole honest encoding) padded with zeros
+                        let mut v = base.clone();
+                        v.resize(len, 0);
+                        v
+                    }
+                    3 => {
+                        // honest + junk
+                        let mut v = base[..base.len().min(len)].to_vec();
+                        while v.len() < len {
+                            v.push((v.len() * 7 + 3) as u8);
+                        }
+                        v
+                    }
+                    4 => h.rng.bytes(len),
+                    _ => {
+                        // a valid point (compressed generator) then junk
+                        let mut v = G1Affine::generator().to_compressed().to_vec();
+                        if ty == "pk" {
+                            v = G2Affine::generator().to_compressed().to_vec();
+                        }
+                        v.truncate(len);
+                        while v.len() < len {
+                            v.push(0x11);
+                        }
+                        v
+                    }
+                };
+                h.stat(&format!("C08.dec.class{}", cls));
+                let t0 = Instant::now();
+                let o = dec(h, ty, &b);
+                let dt = t0.elapsed().as_millis() as u64;
+                let id = h.last();
+                h.expect(!o.is_panic(), "C08.dec_panic", &format!("{}::from_bytes panicked on {} bytes", ty, len), &[id]);
+                h.expect(dt <= 100 + 40 * (len as u64 / 32 + 1), "C08.dec_time", "decoder exceeded its size-proportional time budget", &[id]);
+            }
+            len += step;
+        }
+    }
+    // --- serde_json decoding of structured and junk shapes
+    let pkobj = BBSplusPublicKey::from_bytes(&hon.pk).unwrap();
+    let sigobj = BBSplusSignature::from_bytes(&hon.sig.clone().try_into().unwrap()).unwrap();
+    let proofobj = BBSplusPoKSignature::from_bytes(&hon.proof).unwrap();
+    let comobj = BBSplusCommitment::from_bytes(&hon.commit).unwrap();
+    let texts: Vec<(&str, String)> = vec![
+        ("pk", serde_json::to_string(&pkobj).unwrap()),
+        ("sig", serde_json::to_string(&sigobj).unwrap()),
+        ("proof", serde_json::to_string(&proofobj).unwrap()),
+        ("commit", serde_json::to_string(&comobj).unwrap()),
+        ("zkpok", serde_json::to_string(&comobj.proof).unwrap()),
+        ("sk", serde_json::to_string(&BBSplusSecretKey::from_bytes(&hon.sk).unwrap()).unwrap()),
+    ];
+    for (ty, t) in &texts {
+        json_probe(h, ty, t);
+        for cut in [0usize, 1, t.len() / 2, t.len().saturating_sub(1)] {
+            json_probe(h, ty, &t[..cut]);
+        }
+        json_probe(h, ty, &t.replace('a', "g"));
+        json_probe(h, ty, &t.replace("\"", ""));
+        json_probe(h, ty, "null");
+        json_probe(h, ty, "[]");
+        json_probe(h, ty, "{}");
+        json_probe(h, ty, "\"\"");
+        json_probe(h, ty, &format!("\"{}\"", "ff".repeat(48)));
+        json_probe(h, ty, &format!("\"{}\"", "00".repeat(96)));
+        json_probe(h, ty, "[1,2,3]");
+        json_probe(h, ty, &format!("{{\"A\":\"{}\",\"e\":\"{}\"}}", "c0".to_string() + &"00".repeat(47), "00".repeat(32)));
+    }
+
+    // --- API entry points with hostile arguments
+    let (sk, pk) = rand_keypair::<CS>(h);
+    let msgs = rand_msgs(h, 3);
+    let s = sign::<CS>(h, &sk, &pk, None, Some(&msgs)).ok().expect("sign");
+    let sb = s.to_bytes();
+    let sig = s.bbsPlusSignature().clone();
+    let p = honest_proof::<CS>(h, &pk, &sb, None, None, &msgs, &[1], true).expect("proof");
+    let m = usize::MAX;
+    let idx_sets: Vec<Vec<usize>> = vec![
+        vec![], vec![0], vec![2], vec![3], vec![4], vec![1 << 32], vec![1 << 63], vec![m], vec![m - 1, m],
+        vec![0, 0, 0], vec![2, 1, 0], vec![0, m], vec![1, 1, 2, 2, m, m], (0..64).collect(), vec![m; 40],
+    ];
+    let no_panic = |h: &mut H, what: &str, o: &'static str, id: u64| {
+        h.stat(&format!("C08.api.{}.{}", what, o));
+        h.expect(o != "panic", "C08.api_panic", &format!("{} panicked", what), &[id]);
+    };
+    for idx in &idx_sets {
+        for nm in [0usize, 1, idx.len()] {
+            let dm = rand_msgs(h, nm);
+            let t0 = Instant::now();
+            let o = proofverify::<CS>(h, &pk, &p, None, None, Some(&dm), Some(idx));
+            let id = h.last();
+            no_panic(h, "proof_verify", o.class(), id);
+            h.expect(t0.elapsed().as_millis() < 4000, "C08.api_time", "proof_verify exceeded its budget", &[id]);
+            for lv in [None, Some(0usize), Some(1), Some(2), Some(3), Some(4), Some(1 << 20), Some(1 << 40), Some(1 << 63), Some(m - 1), Some(m)] {
+                if idx.len() > 8 && lv.map(|x| x > 4).unwrap_or(false) && !thorough {
+                    continue;
+                }
+                let t0 = Instant::now();
+                let o = blindproofverify::<CS>(h, &pk, &p, None, None, lv, Some(&dm), Some(&dm), Some(idx), Some(idx));
+                let id = h.last();
+                no_panic(h, "blind_proof_verify", o.class(), id);
+                h.expect(t0.elapsed().as_millis() < 4000, "C08.api_time", "blind_proof_verify exceeded its budget", &[id]);
+            }
+        }
+        let (o, _) = proofgen::<CS>(h, &pk, &sb, None, None, Some(&msgs), Some(idx), vec![]);
+        let id = h.last();
+        no_panic(h, "proof_gen", o.class(), id);
+        let (o, _) = blindproofgen::<CS>(h, &pk, &sb, None, None, Some(&msgs), Some(&msgs), Some(idx), Some(idx), None, vec![]);
+        let id = h.last();
+        no_panic(h, "blind_proof_gen", o.class(), id);
+    }
+    // proof_gen with byte strings that are not signatures
+    for len in [0usize, 1, 79, 80, 81, 160] {
+        for c in 0..3 {
+            let b = match c { 0 => vec![0u8; len], 1 => h.rng.bytes(len), _ => { let mut v = sb.to_vec(); v.resize(len, 0); v } };
+            let (o, _) = proofgen::<CS>(h, &pk, &b, None, None, Some(&msgs), Some(&[0]), vec![]);
+            let id = h.last();
+            no_panic(h, "proof_gen_sigbytes", o.class(), id);
+        }
+    }
+    // update_signature boundary set
+    for n in [0usize, 1, 2, 3, 4, 100, m - 1, m] {
+        for i in [0usize, 1, 2, 3, 4, 99, 100, 1 << 32, m - 1, m] {
+            if n > 100 && n < m - 1 {
+                continue;
+            }
+            if n == m - 1 && i < m - 1 {
+                // n + 1 generators for n = 2^64 - 2 is "size proportional" but not runnable
+                continue;
+            }
+            let o = update::<CS>(h, &sig, &sk, &msgs[0], b"new", i, n);
+            let id = h.last();
+            no_panic(h, "update_signature", o.class(), id);
+        }
+    }
+    // blind_sign / deserialize_and_validate_commit with arbitrary commitment bytes
+    let cm2 = rand_msgs(h, 2);
+    let run = honest_issue::<CS>(h, &sk, &pk, None, &msgs, &cm2, true).expect("issue");
+    let lens: Vec<usize> = if thorough { (0..=400).collect() } else { (0..=180).chain([200, 208, 239, 240, 241, 272, 400]).collect() };
+    for len in lens {
+        for c in 0..2 {
+            let b: Vec<u8> = if c == 0 { let mut v = run.cwp.clone(); v.resize(len, 0); v } else { h.rng.bytes(len) };
+            let o = blindsign::<CS>(h, &sk, &pk, Some(&b), None, Some(&msgs));
+            let id = h.last();
+            no_panic(h, "blind_sign", o.class(), id);
+            if len % 16 == 0 || len < 100 {
+                for ng in [0usize, 1, 3, 5] {
+                    let o = devc::<CS>(h, Some(&b), ng);
+                    let id = h.last();
+                    no_panic(h, "deserialize_and_validate_commit", o.class(), id);
+                }
+            }
+        }
+    }
+    // verify / verify_blind_sign with odd message shapes
+    for l in [0usize, 1, 2, 3, 4, 17] {
+        let ms = rand_msgs(h, l);
+        let o = verify::<CS>(h, &pk, &sig, None, Some(&ms));
+        let id = h.last();
+        no_panic(h, "verify", o.class(), id);
+        let o = verifyblind::<CS>(h, &pk, &run.sig, None, Some(&ms), Some(&ms), Some(&run.blind));
+        let id = h.last();
+        no_panic(h, "verify_blind_sign", o.class(), id);
+    }
+    let _ = (BlindFactor::random(), rand_tape(h, 0), G1Projective::IDENTITY, G2Projective::IDENTITY, Scalar::ZERO);
+}
+
+fn flip(b: &[u8], bit: usize) -> Vec<u8> {
+    let mut v = b.to_vec();
+    v[bit / 8] ^= 0x80 >> (bit % 8);
+    v
+}
+
+const R_BE: [u8; 32] = [
+    0x73, 0xed, 0xa7, 0x53, 0x29, 0x9d, 0x7d, 0x48, 0x33, 0x39, 0xd8, 0x08, 0x09, 0xa1, 0xd8, 0x05, 0x53, 0xbd, 0xa4, 0x02,
+    0xff, 0xfe, 0x5b, 0xfe, 0xff, 0xff, 0xff, 0xff, 0x00, 0x00, 0x00, 0x01,
+];
+const P_BE: [u8; 48] = [
+    0x1a, 0x01, 0x11, 0xea, 0x39, 0x7f, 0xe6, 0x9a, 0x4b, 0x1b, 0xa7, 0xb6, 0x43, 0x4b, 0xac, 0xd7, 0x64, 0x77, 0x4b, 0x84,
+    0xf3, 0x85, 0x12, 0xbf, 0x67, 0x30, 0xd2, 0xa0, 0xf6, 0xb0, 0xf6, 0x24, 0x1e, 0xab, 0xff, 0xfe, 0xb1, 0x53, 0xff, 0xff,
+    0xb9, 0xfe, 0xff, 0xff, 0xff, 0xff, 0xaa, 0xab,
+];
+
+/// accepted => re-encoding reproduces the input; returns the outcome
+fn strict(h: &mut H, ty: &str, b: &[u8], class: &str) -> bool {
+    h.stat(&format!("C09.{}.{}", ty, class));
+    let o = dec(h, ty, b);
+    let id = h.last();
+    h.expect(!o.is_panic(), "C09.panic", "decoder panicked", &[id]);
+    match o {
+        Out::Ok(v) => {
+            h.expect(v == b, "C09.noncanonical", &format!("{} decoder accepted a non-canonical octet string ({})", ty, class), &[id]);
+            true
+        }
+        _ => false,
+    }
+}
+
+fn must_reject(h: &mut H, ty: &str, b: &[u8], class: &str) {
+    h.stat(&format!("C09.{}.forbidden.{}", ty, class));
+    let o = dec(h, ty, b);
+    let id = h.last();
+    h.expect(!o.is_ok(), &format!("C09.forbidden.{}", class), &format!("{} decoder accepted a forbidden encoding ({})", ty, class), &[id]);
+}
+
+pub fn c09<CS: BbsCiphersuite>(h: &mut H)
+where
+    CS::Expander: for<'a> ExpandMsg<'a>,
+{
+    let thorough = h.tier_thorough;
+    let nobj = if thorough { 6 } else { 2 };
+    for k in 0..nobj {
+        let hon = honest_artefacts::<CS>(h, 1 + k % 4, k % 3);
+        for ty in TYPES {
+            let b = honest_of(&hon, ty).to_vec();
+            // round trip
+            let ok = strict(h, ty, &b, "honest");
+            h.expect(ok, "C09.roundtrip", &format!("honest {} encoding does not decode", ty), &[h.last()]);
+            // extensions and truncations
+            let exts: Vec<usize> = if thorough { (1..=64).collect() } else { vec![1, 2, 16, 31, 32, 33, 48, 63, 64] };
+            for e in exts {
+                let mut x = b.clone();
+                x.extend(std::iter::repeat(0u8).take(e));
+                let acc = strict(h, ty, &x, "extended");
+                if e % 32 != 0 || !(ty == "proof" || ty == "zkpok" || ty == "commit") {
+                    h.expect(!acc, "C09.trailing", &format!("{} decoder accepted {} trailing bytes", ty, e), &[h.last()]);
+                }
+                let mut y = b.clone();
+                y.extend(h.rng.bytes(e));
+                strict(h, ty, &y, "extended_random");
+            }
+            for cut in [1usize, 2, 31, 32, 33] {
+                if cut < b.len() {
+                    let acc = strict(h, ty, &b[..b.len() - cut], "truncated");
+                    if cut % 32 != 0 {
+                        h.expect(!acc, "C09.truncated", &format!("{} decoder accepted a truncated encoding", ty), &[h.last()]);
+                    }
+                }
+            }
+            // single-bit flips
+            let nbits = b.len() * 8;
+            let bits: Vec<usize> = if thorough { (0..nbits).collect() } else {
+                let mut v = vec![0, 1, 2, 3, nbits - 1];
+                for _ in 0..20 { v.push(h.rng.below(nbits as u64) as usize); }
+                v
+            };
+            for bit in bits {
+                strict(h, ty, &flip(&b, bit), "bitflip");
+            }
+        }
+        // pk coordinates and JSON round trips (implementation side)
+        let pk = BBSplusPublicKey::from_bytes(&hon.pk).unwrap();
+        if let Some((x, y)) = pkcoords(h, &pk).ok() {
+            let cid = h.last();
+            let back = pkfromcoords(h, &x.clone().try_into().unwrap(), &y.clone().try_into().unwrap());
+            let bid = h.last();
+            h.expect(matches!(&back, Out::Ok(p) if p.to_bytes()[..] == hon.pk[..]), "C09.coords_roundtrip", "public key does not survive to/from coordinates", &[cid, bid]);
+            // a flipped coordinate bit must not decode to the same key
+            let mut y2: [u8; 96] = y.clone().try_into().unwrap();
+            y2[95] ^= 1;
+            let o = pkfromcoords(h, &x.clone().try_into().unwrap(), &y2);
+            h.expect(!o.is_ok(), "C09.coords_offcurve", "from_coordinates accepted an off-curve point", &[h.last()]);
+            let mut x2: [u8; 96] = x.clone().try_into().unwrap();
+            x2[0] |= 0x80;
+            let o = pkfromcoords(h, &x2, &y.clone().try_into().unwrap());
+            h.expect(!o.is_ok(), "C09.coords_flag", "from_coordinates accepted a set compression flag", &[h.last()]);
+        }
+        macro_rules! json_rt {
+            ($ty:ty, $obj:expr, $name:expr) => {{
+                let o: $ty = $obj;
+                let t = serde_json::to_string(&o).unwrap();
+                let back: Result<$ty, _> = serde_json::from_str(&t);
+                h.stat("C09.json_roundtrip");
+                h.expect(matches!(&back, Ok(b) if *b == o), "C09.json_roundtrip", &format!("{} does not survive its JSON encoding", $name), &[]);
+            }};
+        }
+        json_rt!(BBSplusPublicKey, pk.clone(), "public key");
+        json_rt!(BBSplusSecretKey, BBSplusSecretKey::from_bytes(&hon.sk).unwrap(), "secret key");
+        json_rt!(BBSplusSignature, BBSplusSignature::from_bytes(&hon.sig.clone().try_into().unwrap()).unwrap(), "signature");
+        json_rt!(BBSplusPoKSignature, BBSplusPoKSignature::from_bytes(&hon.proof).unwrap(), "proof");
+        json_rt!(BBSplusCommitment, BBSplusCommitment::from_bytes(&hon.commit).unwrap(), "commitment");
+        let hexs = pk.encode();
+        h.expect(hex::decode(&hexs).ok().as_deref() == Some(&hon.pk[..]), "C09.hex", "public key hex form differs from its octets", &[]);
+    }
+    // forbidden classes
+    let hon = honest_artefacts::<CS>(h, 2, 1);
+    let id1 = G1Affine::identity().to_compressed();
+    let id2 = G2Affine::identity().to_compressed();
+    must_reject(h, "pk", &id2, "identity_pk");
+    let mut s = hon.sig.clone();
+    s[..48].copy_from_slice(&id1);
+    must_reject(h, "sig", &s, "identity_sigA");
+    let mut s = hon.sig.clone();
+    for b in &mut s[48..] { *b = 0; }
+    must_reject(h, "sig", &s, "e_zero");
+    for k in 0..3 {
+        let mut p = hon.proof.clone();
+        p[48 * k..48 * (k + 1)].copy_from_slice(&id1);
+        must_reject(h, "proof", &p, "identity_proof_point");
+    }
+    // scalars not below the group order, in every scalar position
+    let mut r1 = R_BE; r1[31] += 1;
+    for (name, sc) in [("r", R_BE), ("r_plus_1", r1), ("max", [0xffu8; 32])] {
+        must_reject(h, "sk", &sc, &format!("scalar_{}", name));
+        must_reject(h, "blind", &sc, &format!("scalar_{}", name));
+        let mut s = hon.sig.clone();
+        s[48..].copy_from_slice(&sc);
+        must_reject(h, "sig", &s, &format!("scalar_{}", name));
+        for off in (144..hon.proof.len()).step_by(32) {
+            let mut p = hon.proof.clone();
+            p[off..off + 32].copy_from_slice(&sc);
+            must_reject(h, "proof", &p, &format!("scalar_{}", name));
+        }
+        for off in (48..hon.commit.len()).step_by(32) {
+            let mut c = hon.commit.clone();
+            c[off..off + 32].copy_from_slice(&sc);
+            must_reject(h, "commit", &c, &format!("scalar_{}", name));
+        }
+    }
+    // r - 1 is canonical and must be accepted and reproduced
+    let mut rm1 = R_BE; rm1[31] -= 1;
+    let okr = strict(h, "sk", &rm1, "r_minus_1");
+    h.expect(okr, "C09.r_minus_1", "scalar r-1 rejected", &[]);
+    // point patterns (G1 in signature position, G2 as public key)
+    let g1 = G1Affine::generator().to_compressed();
+    let g2 = G2Affine::generator().to_compressed();
+    let mut pats1: Vec<(String, Vec<u8>)> = Vec::new();
+    for flags in 0..8u8 {
+        // every compression/infinity/sort flag combination on the generator's x, on x = 0 and on x = p
+        for (nm, body) in [("gen", g1.to_vec()), ("zero", vec![0u8; 48]), ("p", P_BE.to_vec()), ("ones", vec![0xffu8; 48])] {
+            let mut v = body.clone();
+            v[0] = (v[0] & 0x1f) | (flags << 5);
+            pats1.push((format!("g1_{}_flags{}", nm, flags), v));
+        }
+    }
+    // on-curve x not in the subgroup / off-curve x: scan small x values with both sort flags
+    for x in 0u8..24 {
+        for sort in [0u8, 0x20] {
+            let mut v = vec![0u8; 48];
+            v[47] = x;
+            v[0] = 0x80 | sort;
+            pats1.push((format!("g1_smallx{}_{}", x, sort), v));
+        }
+    }
+    for (nm, v) in &pats1 {
+        let mut s = hon.sig.clone();
+        s[..48].copy_from_slice(v);
+        strict(h, "sig", &s, "point_pattern");
+        let mut c = hon.commit.clone();
+        c[..48].copy_from_slice(v);
+        strict(h, "commit", &c, "point_pattern");
+        let _ = nm;
+    }
+    for flags in 0..8u8 {
+        for (nm, body) in [("gen", g2.to_vec()), ("zero", vec![0u8; 96]), ("ones", vec![0xffu8; 96])] {
+            let mut v = body.clone();
+            v[0] = (v[0] & 0x1f) | (flags << 5);
+            strict(h, "pk", &v, &format!("g2_{}_flags{}", nm, flags));
+        }
+    }
+    for x in 0u8..24 {
+        for sort in [0u8, 0x20] {
+            let mut v = vec![0u8; 96];
+            v[95] = x;
+            v[0] = 0x80 | sort;
+            strict(h, "pk", &v, "g2_smallx");
+            let mut w = vec![0u8; 96];
+            w[47] = x;
+            w[0] = 0x80 | sort;
+            strict(h, "pk", &w, "g2_smallx_c1");
+        }
+    }
+    let _ = thorough;
+}
